@@ -58,6 +58,7 @@ type appCase struct {
 	// in-process: the reader now and then returns (0, nil); the writer is an io.Closer
 	EmptyPermille int  `json:"empty_reads_permille,omitempty"`
 	Closer        bool `json:"writer_is_closer,omitempty"`
+	TolMs         uint `json:"eof_tolerance_ms,omitempty"`
 	// the source falls silent for SilenceMs after this many chunks have been written
 	SilenceAfterChunks int `json:"silence_after_chunks,omitempty"`
 	SilenceMs          int `json:"silence_ms,omitempty"`
@@ -242,6 +243,9 @@ type procResult struct {
 	// when the run had to be ended: the number of input bytes the program's standard
 	// input had accepted at least a minute earlier
 	AcceptedAMinuteBeforeTheEnd int
+	// when the run had to be ended: the program had had its whole input, and the end of
+	// it, for more than a minute (a file, or a pipe that was written and closed)
+	InputEndedAMinuteBeforeTheEnd bool
 }
 
 // runAppProcess runs a real application binary built from the current tree.
@@ -272,6 +276,7 @@ func runAppProcess(c *child.Ctx, bin string, args []string, stdin []byte, k appC
 	}
 	var wrote []wroteAt
 	var wroteMu sync.Mutex
+	var inputEnded time.Time
 	var outMu sync.Mutex
 	exited := make(chan struct{})
 	refused := make(chan struct{})
@@ -361,7 +366,12 @@ func runAppProcess(c *child.Ctx, bin string, args []string, stdin []byte, k appC
 				tick()
 			}
 			inW.Close()
+			wroteMu.Lock()
+			inputEnded = time.Now()
+			wroteMu.Unlock()
 		}()
+	} else {
+		inputEnded = time.Now() // a file: the end of the input is there from the start
 	}
 	outDone := make(chan struct{})
 	go func() {
@@ -417,6 +427,7 @@ func runAppProcess(c *child.Ctx, bin string, args []string, stdin []byte, k appC
 	default:
 		res.TimedOut = true
 		wroteMu.Lock()
+		res.InputEndedAMinuteBeforeTheEnd = !inputEnded.IsZero() && time.Since(inputEnded) > time.Minute
 		for _, w := range wrote {
 			if time.Since(w.at) > time.Minute {
 				res.AcceptedAMinuteBeforeTheEnd = w.n
@@ -817,6 +828,12 @@ func monC11(c *child.Ctx, replay json.RawMessage) {
 			k.Closer = i%3 == 1
 			if k.Closer {
 				c.Count("cases_with_a_closable_writer", 1)
+			}
+			if i%6 == 2 && len(in) < 4000 {
+				// a configuration for a live feed: end of file is retried for a while, so the
+				// source's end is noticed only after the tolerance; the output is still complete
+				k.TolMs = uint(r.Range(5, 40))
+				c.Count("cases_with_an_eof_tolerance", 1)
 			}
 			if app == "rtcmfilter" {
 				// every configuration of the optional logs
